@@ -502,9 +502,17 @@ class CFG(object):
 
     @property
     def pdom(self):
-        """Post-dominators w.r.t. the normal exit; nodes that cannot reach it are absent."""
+        """Post-dominators w.r.t. the normal exit along normal control flow: edges into exception
+        handlers are ignored (a statement inside `try` still post-dominates its predecessor even though
+        either may raise); nodes that cannot reach the exit are absent."""
         if self._pdom is None:
-            self._pdom = self._dominators(self.exit, self.pred, self.succ)
+            nsucc = dict((n, [s for s in ss if self.nodes[s].kind != 'except']) for n, ss in self.succ.items())
+            npred = dict((n, []) for n in self.succ)
+            for n, ss in nsucc.items():
+                for s in ss:
+                    npred[s].append(n)
+            # handler entries keep their place in the graph through their own successors
+            self._pdom = self._dominators(self.exit, npred, nsucc)
         return self._pdom
 
     def dominates(self, a, b):
